@@ -434,8 +434,8 @@ Proof.
   unfold impl_cmp.
   set (subs1 := filter (fun i => cmp (den A i) v0) (rows_diff (ssubs A) (ssubs B))).
   set (subs2 := filter (fun i => cmp v0 (den B i)) (rows_diff (ssubs B) (ssubs A))).
-  set (subs3 := filter (fun i => cmp (den A i) (den B i)) (rows_inter (ssubs A) (ssubs B))).
-  set (subs4 := if cmp v0 v0 then rows_inter (zero_subs A) (zero_subs B) else []).
+  set (subs3 := filter (fun i => cmp (den A i) (den B i)) (rows_inter (ssubs B) (ssubs A))).
+  set (subs4 := if cmp v0 v0 then rows_inter (zero_subs B) (zero_subs A) else []).
   assert (H1 : forall i, In i subs1 <-> (In i (ssubs A) /\ ~ In i (ssubs B)) /\ cmp (den A i) v0 = true).
   { intros i. unfold subs1, rows_diff. rewrite !filter_In, negb_true_iff, mem_false. tauto. }
   assert (H2 : forall i, In i subs2 <-> (In i (ssubs B) /\ ~ In i (ssubs A)) /\ cmp v0 (den B i) = true).
@@ -448,7 +448,7 @@ Proof.
     - cbn. split; [tauto|intros [? _]; discriminate]. }
   assert (N1 : NoDup subs1) by (apply NoDup_filter, NoDup_filter; now destruct WsA as (_ & ? & _)).
   assert (N2 : NoDup subs2) by (apply NoDup_filter, NoDup_filter; now destruct WsB as (_ & ? & _)).
-  assert (N3 : NoDup subs3) by (apply NoDup_filter, NoDup_filter; now destruct WsA as (_ & ? & _)).
+  assert (N3 : NoDup subs3) by (apply NoDup_filter, NoDup_filter; now destruct WsB as (_ & ? & _)).
   assert (N4 : NoDup subs4) by (unfold subs4; destruct (cmp v0 v0); [apply NoDup_filter, NoDup_zero_subs|constructor]).
   destruct (sp_const_char (sshape A) (subs1 ++ subs2 ++ subs3 ++ subs4) (fun i => cmp (den A i) (den B i))) as (W & D).
   - apply NoDup_app_intro; auto; [apply NoDup_app_intro; auto; [apply NoDup_app_intro; auto|]|].
